@@ -1637,6 +1637,7 @@ class Evaluator:
     def attr(self, base: Term, name: str, st: _State, depth: int, store: bool = False) -> Term:
         if isinstance(base, Raises):
             return base   # the exception propagates through the expression
+        name = self.m.canon(name)   # a renamed private anchor is presented under its recorded name
         key = Attr(base, name)
         if key in self.assume and not store:
             return self.assume[key]
@@ -1649,9 +1650,9 @@ class Evaluator:
                     return EnumMember(ci.name, name)
                 m = ci.resolve(name)
                 if m is not None and m.kind in ('classmethod', 'staticmethod'):
-                    return BoundMethod(base, m.key, name)
+                    return BoundMethod(base, m.key, m.name)
                 if m is not None:
-                    return BoundMethod(base, m.key, name)  # unbound access, e.g. HplBinaryOperator.conjunction
+                    return BoundMethod(base, m.key, m.name)  # unbound access, e.g. HplBinaryOperator.conjunction
                 for c in ci.mro():
                     if name in c.class_assigns:
                         return self.expr(c.class_assigns[name], _State(), c.module, None, depth)
@@ -1665,7 +1666,7 @@ class Evaluator:
                     if r is not None:
                         return r
                 if m is not None:
-                    return BoundMethod(base, m.key, name)
+                    return BoundMethod(base, m.key, m.name)
                 if name == 'value':
                     return self.enum_value(base, depth)
                 if name == 'name':
@@ -1703,7 +1704,7 @@ class Evaluator:
                         if r is not None:
                             return r
                     return key
-                return BoundMethod(base, m.key, name)
+                return BoundMethod(base, m.key, m.name)
             # a class-level constant read through the instance (no field, no method of that name)
             if not store:
                 for c in bt.mro():
